@@ -153,7 +153,7 @@ def extra_all(res, rnd, cases):
 INFO, run, replay = sessprop.make(
     'C04', ['final.conn.meta', 'final.conns', 'out.eof', 'out.msg', 'out.cmd:connection', 'out.cmd:c', 'out.cmd:conn', 'final.conn.count',
             'final.conn.objects.ident', 'final.conn.objects.life', 'final.conn.msgs.refs', 'final.conn.title', 'final.ctrl.current'],
-    ['Proofs/ConnMgrProofs.v', 'Proofs/SessionProofs.v'],
+    ['Proofs/ConnMgrProofs.v', 'Proofs/SessionProofs.v', 'Proofs/IsolationRuns.v'],
     ['theorems are about WD.Session (open_conn/close_conn/conn_message/log_message/log_eof) for arbitrary event sequences; tied to core/connection_manager.py, Parser.handle_message/cleanup and the controller notices by interleaved multi-connection histories (identical object ids on several connections), comparing names, roles, open flags, notices (close notices at EOF as a multiset: the code iterates a set), the `connection` command output and every connection\'s objects; plus the merged-vs-solo metamorphic check on the implementation',
      'isolation is proved per step (a line tagged X leaves every connection with another identifier untouched; what happens to X depends on X\'s state and the message only); it does not cover the decoder shut-down path (an AssertionError in one connection stops decoding for all), which well-formed histories never take'],
     'C04_names_sequential / C04_isolation / C04_open_is_fresh', gen, nontriv,
